@@ -519,7 +519,7 @@ def build_request(a):
       r.final_measurement.CopyFrom(measurement(a[4] if len(a) > 4 else 2.0))
     if a[3].startswith('infeasible'):
       r.trial_infeasible = True
-      r.infeasible_reason = 'bad'
+      r.infeasible_reason = '' if a[3] == 'infeasible-noreason' else 'bad'     # an infeasible completion need not give a reason
     return r
   if k == 'StopTrial':
     return vs.StopTrialRequest(name=trial_name(a[2], a[1]))
